@@ -84,6 +84,38 @@ def in_situ(ctx, traces):
         ctx.vacuity.append('no selector object of the library or the repository tests was recorded')
 
 
+def apalache_inductive(ctx):
+    """Unbounded part: Apalache discharges the inductive invariant of the error-diffusion sampler (SampleInd.tla) for ALL
+    N < n: Init => IndInv, IndInv /\\ Next => IndInv', IndInv => Safety (exactly N indices, all inside the sequence), plus a
+    satisfiability check of the invariant (the proof is not vacuous).  TLC only covers N, n <= MaxN."""
+    import shutil
+    import subprocess
+    from ..core import ROOT, Machinery
+    exe = shutil.which('apalache-mc')
+    if not exe:
+        ctx.notes['apalache_inductive'] = 'apalache-mc not found: skipped'
+        return
+    out = ctx.wdir('apalache')
+    spec = os.path.join(ROOT, 'spec', 'SampleInd.tla')
+    obligations = [('init', ['--init=Init', '--inv=IndInv', '--length=0'], 'OK'), ('step', ['--init=IndInit', '--inv=IndInv', '--length=1'], 'OK'),
+                   ('safety', ['--init=IndInit', '--inv=Safety', '--length=0'], 'OK'), ('not_vacuous', ['--init=IndInit', '--inv=NotVacuous', '--length=0'], 'ERROR')]
+    res = {}
+    for name, args, want in obligations:
+        try:
+            p = subprocess.run([exe, 'check'] + args + ['--out-dir=' + out, spec], stdout=subprocess.PIPE, stderr=subprocess.STDOUT, text=True, timeout=600, cwd=out)
+        except subprocess.TimeoutExpired:
+            ctx.vacuity.append('Apalache obligation %s timed out: the unbounded argument was not completed in this run' % name)
+            res[name] = 'timeout'
+            continue
+        got = 'OK' if 'EXITCODE: OK' in p.stdout else ('ERROR' if 'EXITCODE: ERROR (12)' in p.stdout else 'FAILED')
+        res[name] = got
+        if got != want:
+            raise Machinery('Apalache obligation %s of SampleInd.tla: expected %s, got %s\n%s' % (name, want, got, p.stdout[-1500:]))
+    ctx.notes['apalache_inductive'] = res
+    ctx.tlc_runs.append(dict(name='Apalache SampleInd', module='SampleInd', kind='inductive_invariant', obligations=res))
+    shutil.rmtree(out, ignore_errors=True)
+
+
 def run(ctx):
     repo.setup()
     from TotalDepth.common import Slice as S
@@ -210,6 +242,7 @@ def run(ctx):
         traces.append(tr)
     ctx.sample(dict(kind='trace', events=traces[-1][:4]))
     in_situ(ctx, traces)
+    apalache_inductive(ctx)
     rej = ctx.validate_traces('SliceSelTrace', 'SliceSelTrace', traces, cfg_consts=cc, label='selectors',
                               workers=16)
     for t, l, st in rej:
